@@ -565,6 +565,12 @@ def analyze(plan, r):
     for c in crashes:
         if c.startswith("worker:") and (kills or fatal_kinds):
             continue
+        if c.startswith("manager:"):
+            # the executor manager thread died of an exception: whatever happened to the futures, join_executor_internals() did
+            # not run (queues, feeder thread, pipes and semaphores stay), so this is reported even when the run ended properly
+            add(sorted(set(hang_props + ["C20"] + (["C05"] if fam == "shutdown" else []) + (["C06"] if fam == "killshutdown" else []))),
+                "manager-crash", f"manager-thread-crashed[{c}] ctx[{ctx}]", str(r.crashes[:2]))
+            continue
         if ended_ok:
             continue
         add(hang_props, "crash", f"crash[{c}] ctx[{ctx}]", str(r.crashes[:2]))
